@@ -416,6 +416,48 @@ def frontend_specs() -> list[dict]:
     return out
 
 
+def extra_specs() -> list[dict]:
+    """Round f: metaepochs of 6-9 generations; the hibernation option as a numpy bool / an int; graphical reports
+    (tree_diagram, animate) rendered in the middle of a run of a three-level tree."""
+    out = []
+    base = {"dim": 2, "box": "sym"}
+    n = 0
+    for eng in ("SEA", "DE", "SHADE", "SEAX", "MWEA"):
+        for gens in (6, 9):
+            n += 1
+            lv0 = {"engine": eng, "pop": 8, "gens": gens}
+            lv1 = {"engine": ["DE", "SEA", "SHADE"][n % 3], "pop": 6, "gens": 7, "lsc": {"kind": "MetaepochLimit", "n": 2}}
+            for lv in (lv0, lv1):
+                if lv["engine"] == "SHADE":
+                    lv["mem"] = 3
+                if lv["engine"] == "SEAX":
+                    lv["p_crossover"] = 0.6
+                if lv["engine"] == "MWEA":
+                    lv.update(k_elites=2, election_group_size=5)
+            out.append(dict(base, name=f"xtra{n}", seed=2100 + n, levels=[lv0, lv1], maximize=(n % 2 == 0), fn=["multi", "funnels", "plateau"][n % 3],
+                            sprout={"kind": "simple", "far": 0.05, "limit": 2}, gsc={"kind": "MetaepochLimit", "n": 4}))
+    for k, form in enumerate(("numpy", "int", "numpy", "int")):
+        n += 1
+        hib = k < 3
+        levels = [{"engine": "SEA", "pop": 8, "gens": 1}, {"engine": "DE", "pop": 6, "gens": 2, "lsc": {"kind": "MetaepochLimit", "n": 3}}]
+        if k % 2:
+            levels.append({"engine": "LOCAL", "maxiter": 2})
+        out.append(dict(base, name=f"xtra{n}", seed=2100 + n, levels=levels, hibernation=hib, hib_form=form, fn="funnels",
+                        sprout={"kind": "nbc", "gen": 1.0, "trunc": 1.0, "fil": 0.5, "limit": 2}, gsc={"kind": "MetaepochLimit", "n": 7},
+                        drive=(["hms"] if k == 2 else ["run"])))
+    for k in range(3):
+        n += 1
+        levels = [{"engine": "SEA", "pop": 10, "gens": 2}, {"engine": "DE", "pop": 6, "gens": 2, "lsc": {"kind": "MetaepochLimit", "n": 6}},
+                  {"engine": ["CMA", "SEA", "LOCAL"][k], "pop": 5, "gens": 2, "lsc": {"kind": "MetaepochLimit", "n": 2}}]
+        if levels[2]["engine"] == "LOCAL":
+            levels[2] = {"engine": "LOCAL", "maxiter": 2}
+        if levels[2]["engine"] == "CMA":
+            levels[2].pop("pop")
+        out.append(dict(base, name=f"xtra{n}", seed=2100 + n, levels=levels, hibernation=(k == 1), fn="funnels", reports=True, visuals=True,
+                        sprout={"kind": "simple", "far": 0.02, "limit": 3}, gsc={"kind": "MetaepochLimit", "n": 6}, cpu_cap_s=300))
+    return out
+
+
 def penalty_specs() -> list[dict]:
     """An objective that answers the worst infinity on part of the box ("death penalty"): these are real evaluations -
     counted, charged to budgets, stored with their true fitness - although they look like a budget wrapper's refusals."""
@@ -649,7 +691,7 @@ def long_specs(tier: str = "quick") -> list[dict]:
 
 def gen_specs(seed: int, n_random: int, tier: str = "quick") -> list[dict]:
     r = random.Random(seed)
-    specs = repo_test_specs() + sweep_specs(tier) + lifecycle_specs() + engine_specs() + init_specs() + manual_specs() + frontend_specs() + branch_specs() + penalty_specs() + tiny_specs() + partial_specs() + fidelity_specs() + adaptive_specs() + big_specs(tier) + user_specs() + long_specs(tier)
+    specs = repo_test_specs() + sweep_specs(tier) + lifecycle_specs() + engine_specs() + init_specs() + manual_specs() + frontend_specs() + branch_specs() + extra_specs() + penalty_specs() + tiny_specs() + partial_specs() + fidelity_specs() + adaptive_specs() + big_specs(tier) + user_specs() + long_specs(tier)
     for i in range(n_random):
         specs.append(random_spec(r, i))
     return specs
